@@ -1496,6 +1496,62 @@ func setPhase(run *vk.Run, p phase) bool {
 	return true
 }
 
+// brokenConfigPhase: the last phase configured a canonical host; config.json is now replaced by
+// something that does not load (a trailing comma, a half-written file, an unknown field, a
+// directory permission).  A join may be refused for that reason, but no token that names
+// another host, group or window than it may is accepted meanwhile.
+func brokenConfigPhase(run *vk.Run, nJ uint64) {
+	last := phases[len(phases)-1]
+	path := filepath.Join(group.DataDirectory, "config.json")
+	broken := []string{
+		`{"canonicalHost": "` + last.host + `",}`,
+		`{"canonicalHost": "` + last.host + `", "writableGroups": tr`,
+		`{"canonicalHost": "` + last.host + `", "cannonicalHost": "x"}`,
+		``,
+	}
+	n := uint64(run.Pick(400, 8000))
+	for k, text := range broken {
+		if err := os.WriteFile(path, []byte(text), 0o644); err != nil {
+			run.Inconclusive("cannot write config.json: " + err.Error())
+			return
+		}
+		if _, err := group.GetConfiguration(); err == nil {
+			// this text loads after all (not every galene version rejects it): not a broken phase
+			run.Count("broken_configurations_that_load", 1)
+			continue
+		}
+		run.Count("broken_configurations_installed", 1)
+		lo := nJ + uint64(k)*n
+		parallel(int(n), func(i int) {
+			idx := lo + uint64(i)
+			run.Eval(1)
+			c, err := genJWT(run, idx, last.host, time.Now())
+			if err != nil {
+				return
+			}
+			desc := makeDesc(run, c.Group, c.Users, c.Keys, c.FromFile && len(c.Keys) > 0, idx%2 == 0)
+			gp := observeGP(desc, c.Group, c.Client, c.Token)
+			switch {
+			case gp.ok && !c.Valid:
+				run.Violation("jwt-accepts:"+c.Pert+":configuration-unreadable",
+					fmt.Sprintf("while config.json (canonicalHost %q before) does not load, GetPermission accepted a JWT with perturbation %s (%s) for group %q: %s", last.host, c.Pert, c.Detail, c.Group, gp),
+					map[string]any{"kind": "jwt", "index": idx, "phase": len(phases) - 1, "broken_config": text, "case": c})
+			case gp.ok:
+				run.Count("accepted_while_configuration_unreadable", 1)
+			default:
+				run.Count("refused_while_configuration_unreadable", 1)
+				if !c.Valid {
+					run.Count("refused_while_configuration_unreadable:"+c.Pert, 1)
+				}
+			}
+			run.Distinct(fmt.Sprintf("jwt-broken-config|%d|%s|%s", k, c.Pert, c.Alg))
+		})
+	}
+	// leave a loadable configuration behind
+	os.WriteFile(path, []byte(last.config+"\n"), 0o644)
+	group.GetConfiguration()
+}
+
 func parallel(n int, f func(i int)) {
 	workers := runtime.GOMAXPROCS(0)
 	var next atomic.Int64
@@ -1602,6 +1658,8 @@ func main() {
 		parallel(int(hi-lo), func(i int) { evalJWT(run, lo+uint64(i), phases[p].host, p) })
 	}
 
+	brokenConfigPhase(run, nJ)
+
 	run.Set("stateful_cases", nS)
 	run.Set("jwt_cases", nJ)
 	run.Set("token_files", tokenFileN)
@@ -1630,6 +1688,8 @@ func main() {
 	run.FloorCounter("username_configured_refused", 20)
 	run.FloorCounter("username_required", 5)
 	run.FloorCounter("descriptions_loaded_from_file", 50)
+	run.FloorCounter("broken_configurations_installed", 2)
+	run.FloorCounter("refused_while_configuration_unreadable:other-host", 5)
 
 	run.Assume("the harness is the only issuer: stateful tokens are those it wrote (token.Update or JSONL lines), JWTs are signed by its own JWS code with keys it generated; a forged signature is not attempted beyond the listed perturbations")
 	run.Assume("all validity-window offsets are >= 120 s from the time base of the case and every case is evaluated within 60 s of it, so the library's 5 s leeway and scheduling delays cannot change a verdict")
